@@ -173,7 +173,6 @@ class SB:
 
 
 class SR:
-    __array_priority__ = 1000
 
     def __init__(self, e):
         self.e = e
